@@ -37,6 +37,7 @@ impl Obj for TheObj {
 pub trait CallIface {
     fn add(&self, a: u32, b: u32) -> u32;
     fn concat(&self, a: &str, b: String) -> String;
+    fn join(&self, a: String, b: String) -> String;
     fn sum(&self, v: &[u32]) -> u32;
     fn blob(&self, v: Vec<u8>) -> Vec<u8>;
     fn check(&self, x: u32) -> Result<u32, String>;
@@ -56,6 +57,10 @@ impl CallIface for Impl {
     }
     fn concat(&self, a: &str, b: String) -> String {
         log("concat", b.len() as i64);
+        format!("{}{}", a, b)
+    }
+    fn join(&self, a: String, b: String) -> String {
+        log("join", a.len() as i64);
         format!("{}{}", a, b)
     }
     fn sum(&self, v: &[u32]) -> u32 {
@@ -113,11 +118,11 @@ impl CallIface for Impl {
     }
     fn panic_lit(&self) {
         log("panic_lit", 0);
-        panic!("literal panic message");
+        panic!("literal panic méssage — ünïcode");
     }
     fn panic_fmt(&self, x: u32) {
         log("panic_fmt", x as i64);
-        panic!("formatted panic message {}", x);
+        panic!("formatted panic méssage {} — ünïcode", x);
     }
 }
 
@@ -142,6 +147,11 @@ fn run(iface: &mut dyn CallIface, calls: &Value, next_id: &mut u32, held: &mut V
                     let b = "c".repeat(x as usize);
                     let r = iface.concat("ab", b.clone());
                     (if r == format!("ab{}", b) { "ok" } else { "wrong" }.to_string(), x)
+                }
+                "join" => {
+                    let a = "j".repeat(x as usize);
+                    let r = iface.join(a.clone(), "xy".to_string());
+                    (if r == format!("{}xy", a) { "ok" } else { "wrong" }.to_string(), x)
                 }
                 "sum" => {
                     let v: Vec<u32> = (1..=x as u32).collect();
@@ -230,7 +240,7 @@ fn run(iface: &mut dyn CallIface, calls: &Value, next_id: &mut u32, held: &mut V
             Ok(v) => rets.push(v),
             Err(p) => {
                 let msg = vcommon::panic_msg(p);
-                let want = if m == "panic_lit" { "literal panic message".to_string() } else { format!("formatted panic message {}", x) };
+                let want = if m == "panic_lit" { "literal panic méssage — ünïcode".to_string() } else { format!("formatted panic méssage {} — ünïcode", x) };
                 if (m == "panic_lit" || m == "panic_fmt") && msg.contains(&want) {
                     rets.push(("panic".to_string(), x));
                 } else if m == "panic_lit" || m == "panic_fmt" {
